@@ -104,6 +104,33 @@ def c04_frames(case):
             want[::2] = np.diag(S) @ want[::2]
             if not (np.allclose(dA3, want, atol=1e-10) and np.allclose(df3, df, atol=1e-10)):
                 problems.append(f"{fb}/{regime}: lattice two-fold {S} changes the rates")
+        # grains on which (some) slip systems resolve no shear: axis-aligned orientations and grains rotated about one axis, in
+        # flows with vorticity; frame rotations that are exact in floating point (signed permutations), so that an exactly
+        # vanishing resolved shear stays exactly zero in the rotated frame
+        perms = [np.array(m, dtype=float) for m in ([[0, 1, 0], [-1, 0, 0], [0, 0, 1]], [[0, 0, 1], [1, 0, 0], [0, 1, 0]], [[1, 0, 0], [0, 0, -1], [0, 1, 0]], [[0, -1, 0], [0, 0, 1], [-1, 0, 0]])]
+        Az = Rotation.from_euler("z", [[0.3], [1.2]]).as_matrix()
+        Ax = Rotation.from_euler("x", [[0.5], [2.1]]).as_matrix()
+        As = np.concatenate([np.eye(3)[None], perms[1][None], perms[2][None], np.diag([-1.0, -1.0, 1.0])[None], Az, Ax, Rotation.random(2, random_state=8).as_matrix()])
+        ns = len(As)
+        fs = np.full(ns, 1 / ns)
+        args_s = args[:3] + (ns,)
+        shear = lambda i, j: np.array([[2.0 if (r, c) == (i, j) else 0.0 for c in range(3)] for r in range(3)])  # noqa: E731
+        for Ls in (shear(0, 1), shear(1, 2), shear(2, 0), shear(0, 2) + np.diag([0.5, 0.0, -0.5])):
+            Ds = (Ls + Ls.T) / 2
+            dAs, dfs = core.derivatives(*args_s, As.copy(), fs.copy(), Ds, Ls, W, 1.5, 3.5, 5.0, 125.0, 1.0)
+            for Q in perms:
+                L2 = Q @ Ls @ Q.T
+                dA2, df2 = core.derivatives(*args_s, (As @ Q.T).copy(), fs.copy(), (L2 + L2.T) / 2, L2, Q @ W @ Q.T, 1.5, 3.5, 5.0, 125.0, 1.0)
+                if not (np.allclose(dA2, dAs @ Q.T, atol=1e-10) and np.allclose(df2, dfs, atol=1e-10)):
+                    problems.append(f"{fb}/{regime}: rates of grains without resolved shear are not frame indifferent (max {np.abs(dA2 - dAs @ Q.T).max():.2e})")
+            for S in ([1, -1, -1], [-1, 1, -1], [-1, -1, 1]):
+                A3 = As.copy()
+                A3[::2] = np.diag(S) @ A3[::2]
+                dA3, df3 = core.derivatives(*args_s, A3.copy(), fs.copy(), Ds, Ls, W, 1.5, 3.5, 5.0, 125.0, 1.0)
+                want = dAs.copy()
+                want[::2] = np.diag(S) @ want[::2]
+                if not (np.allclose(dA3, want, atol=1e-10) and np.allclose(df3, dfs, atol=1e-10)):
+                    problems.append(f"{fb}/{regime}: lattice two-fold {S} changes the rates of grains without resolved shear (max {np.abs(dA3 - want).max():.2e})")
         # integrated textures
         Q = Rotation.from_euler("zxz", [0.7, 1.1, 0.4]).as_matrix()
         params = _params(number_of_grains=n, phase_assemblage=(getattr(core.MineralPhase, ph),), phase_fractions=(1.0,))
@@ -117,7 +144,7 @@ def c04_frames(case):
         eF = np.abs(F2 - Q @ F1).max()
         if max(eo, ef, eF) > 1e-5:
             problems.append(f"{fb}/{regime}: integrated texture is not frame indifferent (orientations {eo:.2e}, fractions {ef:.2e}, F {eF:.2e})")
-    return {"reproduced": bool(problems), "detail": problems[:5] or "frame indifferent and symmetry invariant on the replay inputs"}
+    return {"reproduced": bool(problems), "detail": sorted(set(problems))[:6] or "frame indifferent and symmetry invariant on the replay inputs"}
 
 
 def c05_rates(case):
@@ -140,6 +167,23 @@ def c05_rates(case):
             err = max(np.abs(res[0] - ref[0]).max(), np.abs(res[1] - ref[1]).max(), np.abs(res[2] - ref[2]).max())
             if err > 1e-6:
                 problems.append(f"{fb}: k = {k:g}: texture / F differ from the k = 1 run by {err:.2e}")
+        # a velocity gradient that changes WITHIN an update (time dependent, and position dependent along a moving pathline)
+        ref = None
+        Lb = np.array([[0.2, -1.0, 0.3], [0.9, -0.5, 0.2], [-0.6, 0.4, 0.3]])
+        for k in (1.0, 1e-15, 1e-12, 1e-4, 1e3):
+            m = _mineral(ph, fb, "matrix_dislocation", 20, seed=5)
+            params = _params(number_of_grains=20, phase_assemblage=(m.phase,), phase_fractions=(1.0,))
+            Fm = np.eye(3)
+            Lt = lambda t, x: k * ((1 - k * t) * GENERAL_L + k * t * Lb + x[0] * np.diag([0.3, -0.1, -0.2]))  # noqa: E731
+            for j in range(2):
+                Fm = m.update_orientations(params, Fm, Lt, (0.3 * j / k, 0.3 * (j + 1) / k, lambda t: np.array([k * t, 0.0, 0.0])))
+            res = (m.orientations[-1], m.fractions[-1], Fm)
+            if ref is None:
+                ref = res
+                continue
+            err = max(np.abs(res[0] - ref[0]).max(), np.abs(res[1] - ref[1]).max(), np.abs(res[2] - ref[2]).max())
+            if err > 1e-5:
+                problems.append(f"{fb}: k = {k:g}, velocity gradient varying within the update: texture / F differ from the k = 1 run by {err:.2e}")
     return {"reproduced": bool(problems), "detail": problems[:5] or "rate independent on the replay inputs"}
 
 
